@@ -807,3 +807,32 @@ def c01_history(model, meta):
 @search("c01:history")
 def c01_history_search(meta, seed, budget):
     yield {}
+
+
+@runner("c02:clockstep")
+def c02_clockstep(model, meta):
+    """same live process, kernel btime stepped between two constructions, boot_time() called in between"""
+    import psutil
+    from psutil import _pslinux
+    pid = 4800
+    stat1 = b"cpu  1 2 3 4 5 6 7 8 9 10\nbtime 1700000000\n"
+    stat2 = b"cpu  1 2 3 4 5 6 7 8 9 10\nbtime 1700000005\n"
+    with fake_procfs({f"{pid}/stat": _stat_with_start(pid, 12345), "stat": stat1}) as d:
+        _pslinux.BOOT_TIME = None
+        p1 = psutil.Process(pid)
+        with open(os.path.join(d, "stat"), "wb") as f:
+            f.write(stat2)
+        psutil.boot_time()
+        p2 = psutil.Process(pid)
+        eq = p1 == p2
+        h = hash(p1) == hash(p2)
+        running = p1.is_running()
+        _pslinux.BOOT_TIME = None
+    return {"env": {}, "result": {"p1 == p2": eq, "same hash": h, "p1.is_running()": running,
+                                  "ident1": p1._ident, "ident2": p2._ident}, "exc": None,
+            "verdict": not (eq and h and running)}
+
+
+@search("c02:clockstep")
+def c02_clockstep_search(meta, seed, budget):
+    yield {}
